@@ -105,7 +105,9 @@ def generate(rng, tier):
     for arch in ("x86", "a64"):
         for rep in range(3 if tier == "quick" else 30):
             s = Script(arch)
-            prog = mt.make_program(rng, arch)
+            # every other program: the LAST function of __text ends in a call and __stubs begins at its end (C13-7)
+            prog = mt.make_program(rng, arch, force_last_noreturn=(rep % 2 == 0))
+            lastf = prog["funcs"][-1] if getattr(prog["funcs"][-1], "noreturn", False) else None
             nr = [f for f in prog["funcs"] if getattr(f, "noreturn", False)]
             if not nr:
                 continue
@@ -121,7 +123,9 @@ def generate(rng, tier):
                 thru = [x for x in fr if x["kind"] == "caller" and getattr(x["func"], "noreturn", False)
                         and x["pc"] == base + x["func"].start + x["func"].length]
                 if not thru or (found % 2 == 0 and attempt < 300 and not any(x["func"].dwarf for x in thru)):
-                    continue          # every other scenario goes through a DWARF-deferred function of this kind
+                    continue
+                if lastf is not None and found in (1, 3) and attempt < 300 and not any(x["func"] is lastf for x in thru):
+                    continue          # ... and two of them through the function that __stubs follows          # every other scenario goes through a DWARF-deferred function of this kind
                 found += 1
                 mid = "S%d" % attempt
                 s.mem(mid, sorted(sc["mem"].items()))
